@@ -2,7 +2,8 @@
 //! proof went through `to_bytes` / `from_bytes`.
 //!
 //! Op lines:
-//!   run <field> <hasher> <q.b.g.x.f.r> <trace seed> <AirDesc line>
+//!   run <field> <hasher> <q.b.g.x.f.r> <trace seed> <AirDesc line> [m=<hex>]
+//!       (optional `m=`: the trace carries this custom metadata, `TraceInfo::with_meta` / `new_multi_segment`)
 //!       generate a valid trace (wf_harness::genair::gen_trace), judge it with the reference
 //!       predicate, prove, verify, serialise, parse, verify again.
 //!       output: `<verdict before> <verdict after> [uq=.. layers=.. lde=..]`, verdicts being
@@ -75,9 +76,23 @@ struct RunOp {
     opts: OptSpec,
     seed: u64,
     desc: Arc<AirDesc>,
+    /// custom trace metadata (`m=<hex>` token; empty = none)
+    meta: Vec<u8>,
 }
 
 fn parse_run(t: &[&str]) -> Result<RunOp, String> {
+    // optional sixth token `m=<hex>`: the trace carries this metadata
+    let mut meta: Vec<u8> = vec![];
+    let t: &[&str] = if t.len() == 6 && t[5].starts_with("m=") {
+        let h = &t[5][2..];
+        if h.is_empty() || h.len() % 2 != 0 || !h.bytes().all(|b| b.is_ascii_hexdigit()) || h.len() / 2 > 65535 {
+            return Err("metadata".into());
+        }
+        meta = unhex(h);
+        &t[..5]
+    } else {
+        t
+    };
     if t.len() != 5 {
         return Err("arity".into());
     }
@@ -86,7 +101,7 @@ fn parse_run(t: &[&str]) -> Result<RunOp, String> {
     let opts = OptSpec::parse(t[2]).ok_or("options")?;
     let seed = t[3].parse::<u64>().map_err(|_| "seed")?;
     let desc = AirDesc::parse(t[4])?;
-    Ok(RunOp { field, hash, opts, seed, desc: Arc::new(desc) })
+    Ok(RunOp { field, hash, opts, seed, desc: Arc::new(desc), meta })
 }
 
 fn admissible(op: &RunOp) -> bool {
@@ -160,7 +175,13 @@ fn exec_run(t: &[&str]) -> Outcome {
     }
     // 2. prove
     let desc = op.desc.clone();
-    let proved = guarded(|| prove_ex(&desc, &trace, op.field, &op.opts, op.hash));
+    let proved = guarded(|| {
+        if op.meta.is_empty() {
+            prove_ex(&desc, &trace, op.field, &op.opts, op.hash)
+        } else {
+            prove_ex_meta(&desc, &trace, op.field, &op.opts, op.hash, &op.meta)
+        }
+    });
     let fail = |o: Outcome, site: String, detail: String| -> Outcome {
         if adm {
             o.fail(site, detail)
@@ -206,6 +227,9 @@ fn exec_run(t: &[&str]) -> Outcome {
         }
         if proof.trace_info().width() != op.desc.total_width() || proof.trace_info().length() != n {
             o = o.fail("c01.glue.trace-info", "proof context reports another trace shape");
+        }
+        if proof.trace_info().meta() != &op.meta[..] {
+            o = o.fail("c01.glue.trace-meta", "proof context reports other trace metadata");
         }
         if proof.options() != &op.opts.to_options() {
             o = o.fail("c01.glue.options", "proof context reports other options");
@@ -1182,8 +1206,43 @@ fn hardening_ops(tier: Tier, emit: &mut dyn FnMut(String)) {
     }
 }
 
+/// trace METADATA (`TraceInfo::with_meta` / `new_multi_segment(.., meta)`): lengths around one and two field
+/// elements' worth of bytes for each field (`Context::to_elements` chunks the metadata by ELEMENT_BYTES - 1),
+/// 100 bytes and the maximum of 65535; contents: a byte pattern, the same with trailing zero bytes, all 0xff;
+/// single- and two-segment descriptions
+fn meta_ops(emit: &mut dyn FnMut(String)) {
+    let o = OptSpec::new(4, 4, 0, 1, 4, 3);
+    let descs = [power_desc(8, 2, 1, 0), wide_desc(2, 8, 2, 1, false)];
+    let mut k = 0usize;
+    for field in FieldId::ALL {
+        let eb: usize = if field == FieldId::F128 { 16 } else { 8 };
+        for (di, d) in descs.iter().enumerate() {
+            for len in [1usize, eb - 2, eb - 1, eb, eb + 1, 2 * eb - 1, 2 * eb, 100, 65535] {
+                let contents: Vec<usize> = if len == eb - 1 || len == eb || len == 2 * eb { vec![0, 1, 2] } else { vec![k % 3] };
+                for c in contents {
+                    let mut m: Vec<u8> = (0..len).map(|i| ((i * 37 + 1 + di) % 256) as u8).collect();
+                    match c {
+                        1 => {
+                            let z = len.min(3);
+                            for b in m[len - z..].iter_mut() {
+                                *b = 0;
+                            }
+                        },
+                        2 => m.iter_mut().for_each(|b| *b = 0xff),
+                        _ => {},
+                    }
+                    emit(format!("{} m={}", run_line(field, HashId::Blake3_256, &o, 90 + k as u64, d), hex(&m)));
+                    k += 1;
+                }
+            }
+        }
+    }
+    emit("run f64 blake3_256 4.4.0.1.4.3 1 w=1;l=8;e=1;j=0;p=;g=S?:+^2c0k5;t=2:-n0+^2c0k5;a=s0.0 m=zz".into());
+}
+
 fn boundary_ops(rng: &mut Rng, tier: Tier, emit: &mut dyn FnMut(String)) {
     hardening_ops(tier, emit);
+    meta_ops(emit);
     let base = OptSpec::new(4, 4, 0, 1, 4, 3);
     let mut both = |d: &AirDesc, field: FieldId, hash: HashId, o: &OptSpec, seed: u64, emit: &mut dyn FnMut(String)| {
         emit(run_line(field, hash, o, seed, d));
@@ -1453,6 +1512,9 @@ impl Prop for P {
                 if m >= 64 || d + 1 < m {
                     return format!("run.seq.values{}.degree{}:{}", m, d, verdict.join("+"));
                 }
+            }
+            if let Some(m) = t.last().and_then(|x| x.strip_prefix("m=")) {
+                return format!("run.meta.{}.len{}:{}", t[1], m.len() / 2, verdict.join("+"));
             }
             format!("run.{}.{}.x{}:{}", t[1], t[2], ext, verdict.join("+"))
         } else if t.first() == Some(&"refp") && t.len() >= 4 {
